@@ -454,6 +454,38 @@ def literals(F, rep, T):
             ops = [it for it in a["items"] if it[0] == "op"]
             ok = len(ops) == 1 and ops[0][1] == a["label"] and ops[0][2][1] == ("ast", "0")
             rep.ob("LITERAL", "lowering|" + a["label"], ok, "%s literals are lowered to IR::%s with the literal's own payload" % (a["label"], a["label"]), line_of(a["arm"]))
+    # literal payloads pass unchanged through the parser (token -> node) and the resolver (node -> resolved node)
+    from hir import pat_alternatives, pat_variant, pat_bindings, pat_strip, peel_clone
+    from engines import ty_is
+
+    def passthrough(fn, scrut_enum, out_prefix, want, rulekey):
+        got = {}
+        for m in nodes(fn_body(fn), "Match"):
+            if not ty_is(m.get("scrut_ty", ""), scrut_enum):
+                continue
+            for arm in m["arms"]:
+                b = peel(arm["body"])
+                for alt in pat_alternatives(arm["pat"]):
+                    v = pat_variant(alt)
+                    if not v or last(v) not in want:
+                        continue
+                    binds = pat_bindings(alt)
+                    if b.get("k") == "Call" and (callee(b) or "").startswith(out_prefix):
+                        a0 = peel_clone(b["args"][0]) if b["args"] else None
+                        while isinstance(a0, dict) and a0.get("k") == "Unary":
+                            a0 = peel_clone(a0["e"])
+                        same = bool(binds) and isinstance(a0, dict) and a0.get("hid") == binds[0]["hid"]
+                        got[last(v)] = (last(callee(b)), same)
+                    elif b.get("k") == "Path" and b.get("res") == "Def" and norm_path(b.get("path", "")).startswith(out_prefix):
+                        got[last(v)] = (last(norm_path(b["path"])), not binds)
+        ok = all(got.get(k) == (w, True) for k, w in want.items())
+        rep.ob("LITERAL", rulekey, ok, "%s maps literal payloads unchanged: %s" % (last(fn["_path"], 2), {k: got.get(k) for k in want}), fn["sp"])
+
+    passthrough(F.fn("sylt_parser::expression::value"), "sylt_tokenizer::token::Token", "sylt_parser::expression::ExpressionKind::",
+                {"Float": "Float", "Int": "Int", "Bool": "Bool", "String": "Str", "Nil": "Nil"}, "parser|token->node")
+    passthrough(F.fn("sylt_compiler::name_resolution::Resolver::expression"), "sylt_parser::expression::ExpressionKind",
+                "sylt_compiler::name_resolution::Expression::",
+                {"Float": "Float", "Int": "Int", "Bool": "Bool", "Str": "Str"}, "resolver|node->resolved")
     # the program ends with the call of start
     comp = F.fn("sylt_compiler::intermediate::compile")
     body = fn_body(comp)
